@@ -495,6 +495,12 @@ pub fn consistent_scripts(b: &[u8], lay: &Layout) -> Vec<(String, Vec<Edit>)> {
         let n0 = read_le(b, nf.off, 8);
         let (m62, m64) = (4611624995532046337u64, 18446744069414584321u64);
         let mut vals: Vec<u64> = vec![0, 1, n0.wrapping_add(1), m62, m64, 1 << 63, u64::MAX];
+        // neighbours of the nonce: a coin that uses the nonce as an offset into one stream instead of absorbing it
+        // draws overlapping windows for them
+        for d in 1..=4u64 {
+            vals.push(n0.wrapping_add(d));
+            vals.push(n0.wrapping_sub(d));
+        }
         for k in 1..=3u64 {
             vals.push(n0.wrapping_add(m62.wrapping_mul(k)));
         }
